@@ -70,7 +70,9 @@ func genShape(r *rand.Rand, sig Signal, items int) []ResSpec {
 	return res
 }
 
-var tenantValues = [][]string{{"a"}, {"b"}, {"c"}, {"a", "b"}, {"a", "c"}, {"b", "a"}, {"a", "b", "c"}, {""}, {"", "a"}, nil, {}, {"A"}, {"d"}, {"e"}}
+// values that differ only in how a list is cut (["a","b"] vs ["a,b"] vs ["a;b"]) are distinct combinations
+var tenantValues = [][]string{{"a"}, {"b"}, {"c"}, {"a", "b"}, {"a", "c"}, {"b", "a"}, {"a", "b", "c"}, {""}, {"", "a"}, nil, {}, {"A"}, {"d"}, {"e"},
+	{"a,b"}, {"a;b"}, {"a", ""}, {"a,b", "c"}, {"a", "b,c"}, {"a\x00b"}, {"a=b"}, {"[a b]"}}
 
 // GenScenario draws one scenario.
 func GenScenario(r *rand.Rand, p Profile) *Scenario {
